@@ -2,4 +2,7 @@ import Seccomp.Model.Bpf
 import Seccomp.Model.Tok
 import Seccomp.Model.Asm
 import Seccomp.Model.Lower
+import Seccomp.Model.Policy
+import Seccomp.Model.Event
+import Seccomp.Model.Spec
 import Seccomp.Proofs.Lemmas.CompileEntries
